@@ -1,1 +1,1 @@
-fn main() { mc::hello(); }
+fn main() { mc::cli::main(); }
